@@ -128,7 +128,7 @@ func (in *Interp) deadlock(what string) {
 		}
 	}
 	if s.cur.id != 0 {
-		s.abort = targetPanic{in.runtimeError(desc)}
+		s.abort = targetPanic{v: in.runtimeError(desc)}
 		// hand over to main, which re-raises
 		main := s.threads[0]
 		main.blocked = nil
@@ -136,7 +136,7 @@ func (in *Interp) deadlock(what string) {
 		main.resume <- struct{}{}
 		panic(pathEnd{"deadlock"})
 	}
-	panic(targetPanic{in.runtimeError(desc)})
+	panic(targetPanic{v: in.runtimeError(desc)})
 }
 
 func (in *Interp) spawn(fr *frame, pos token.Pos, fn value, args []value) {
@@ -191,7 +191,7 @@ func (in *Interp) spawn(fr *frame, pos token.Pos, fn value, args []value) {
 			rs := s.runnable()
 			if len(rs) == 0 {
 				// everyone else is blocked: deadlock, reported via main
-				s.abort = targetPanic{in.runtimeError("all goroutines are asleep - deadlock (after goroutine exit)")}
+				s.abort = targetPanic{v: in.runtimeError("all goroutines are asleep - deadlock (after goroutine exit)")}
 				next = s.threads[0]
 				next.blocked = nil
 			} else {
@@ -315,12 +315,12 @@ func (in *Interp) chanSend(fr *frame, c *chanObj, v value) {
 		in.block(fr, "send on nil channel", func() bool { return false })
 	}
 	if c.closed {
-		panic(targetPanic{in.runtimeError("send on closed channel")})
+		panic(targetPanic{v: in.runtimeError("send on closed channel")})
 	}
 	if c.capn > 0 {
 		in.block(fr, "chan send", func() bool { return len(c.buf) < c.capn || c.closed })
 		if c.closed {
-			panic(targetPanic{in.runtimeError("send on closed channel")})
+			panic(targetPanic{v: in.runtimeError("send on closed channel")})
 		}
 		c.buf = append(c.buf, v)
 		in.logUndo(func() { c.buf = c.buf[:len(c.buf)-1] })
@@ -331,7 +331,7 @@ func (in *Interp) chanSend(fr *frame, c *chanObj, v value) {
 	in.logUndo(func() { c.pending = nil })
 	in.block(fr, "chan send", func() bool { return req.taken || c.closed })
 	if !req.taken && c.closed {
-		panic(targetPanic{in.runtimeError("send on closed channel")})
+		panic(targetPanic{v: in.runtimeError("send on closed channel")})
 	}
 }
 
@@ -381,10 +381,10 @@ func (in *Interp) chanRecv(fr *frame, instr *ssa.UnOp, c *chanObj) value {
 
 func (in *Interp) chanClose(fr *frame, c *chanObj) {
 	if c == nil {
-		panic(targetPanic{in.runtimeError("close of nil channel")})
+		panic(targetPanic{v: in.runtimeError("close of nil channel")})
 	}
 	if c.closed {
-		panic(targetPanic{in.runtimeError("close of closed channel")})
+		panic(targetPanic{v: in.runtimeError("close of closed channel")})
 	}
 	c.closed = true
 	in.logUndo(func() { c.closed = false })
@@ -447,7 +447,7 @@ func (in *Interp) selectOp(fr *frame, instr *ssa.Select) value {
 	c := cases[k]
 	if c.send {
 		if c.c.closed {
-			panic(targetPanic{in.runtimeError("send on closed channel")})
+			panic(targetPanic{v: in.runtimeError("send on closed channel")})
 		}
 		if c.c.capn > 0 {
 			c.c.buf = append(c.c.buf, c.v)
